@@ -596,5 +596,8 @@ def replay(obj):
     boot.install()
     r = Runner(obj['txpair'], obj['start'], [tuple(l) for l in obj['ops']], obj.get('snapshot_reads', False))
     ch = vloop.Chooser(tuple(obj['choices']))
-    outcome, msg, sig = r.run_one(ch)
+    try:
+        outcome, msg, sig = r.run_one(ch)
+    except vloop.ReplayDivergence as e:
+        return True, f'the recorded schedule is not a schedule of this tree (other locks are taken): {e}'
     return (msg is None), (msg or 'no violation')
